@@ -45,11 +45,22 @@ class FakeDateTime(datetime.datetime):
 
 
 class _Body(object):
+    """like botocore's StreamingBody: a ONE-SHOT stream over the object's bytes - what was read is gone, a read after
+    the end answers b'' (code that reads the body twice, e.g. once to log its size, gets nothing the second time)"""
     def __init__(self, b):
         self.b = b
+        self.pos = 0
+        self.nreads = 0
 
-    def read(self):
-        return self.b
+    def read(self, amt=None):
+        self.nreads += 1
+        end = len(self.b) if amt is None or amt < 0 else min(len(self.b), self.pos + amt)
+        out = self.b[self.pos:end]
+        self.pos = end
+        return out
+
+    def close(self):
+        self.pos = len(self.b)
 
 
 class _Obj(object):
